@@ -158,10 +158,22 @@ def check(ctx):
     POST = ("cmp", "==", type_t, ("g", f"{ETYPE}.POSTERIOR"))
 
     # ------------------------------------------------------------- R1
-    first_call = res.calls[0][0] if res.calls else None
-    ctx.ob("C07.R1", sne, "_start_epoch is the first action of sample_next_epoch",
-           first_call is not None and first_call[1] == ("a", n("self"), "_start_epoch"),
-           detail=short(first_call or ()))
+    # precondition guards (`if c: raise`) are assumptions of the lifecycle, not gates of
+    # events: their fall-through negations are removed from the event conditions
+    assumptions = set()
+    for rc, _, _ in res.raises:
+        if rc:
+            a_, p_ = rc[-1]
+            assumptions.add((a_, not p_))
+    events = [(nm, t, nd, tuple(x for x in cond if x not in assumptions), idx)
+              for nm, t, nd, cond, idx in events]
+    nxt = [i for i, (t, _, _) in enumerate(res.calls)
+           if t[0] == "call" and t[1][0] == "a" and t[1][2] == "next"
+           and t[1][1] == ("a", n("self"), "_epoch_manager")]
+    ctx.ob("C07.R1", sne, "the next epoch is fetched from the epoch manager before any "
+                          "kernel event of sample_next_epoch",
+           len(nxt) == 1 and all(nxt[0] < e[4] for e in events),
+           detail=f"epoch_manager.next() at call #{nxt}")
     for name, t, node, cond, idx in events:
         at = atoms(cond)
         if name == "end_warmup":
@@ -443,7 +455,8 @@ def check(ctx):
                occ("start_epoch") and idx < occ("start_epoch")[0][4] and not in_loop(cond))
         if len(latches) == 1:
             latch = latches[0]
-            sets = [(val, sc) for loc, val, nd, sc in res.stores if loc == latch]
+            sets = [(val, tuple(x for x in sc if x not in assumptions))
+                    for loc, val, nd, sc in res.stores if loc == latch]
             ok = any(val == c(True) and atoms(sc) <= at for val, sc in sets)
             bad_reset = [val for val, sc in sets if val != c(True)]
             ctx.ob("C07.R5", sne, f"the latch {pretty(latch)} is set to True on every path "
